@@ -511,6 +511,8 @@ def run(chk, tier):
     prog = facts.programs()['cproc-qbe']
     chk.guard('C08.t', lambda: rule_emittype(chk, prog, tier))
     chk.guard('C08.g', lambda: rule_type_layout(chk, prog, tier))
+    from props import c05
+    chk.guard('C05.o', lambda: c05.rule_promote_expr(chk, prog, tier))       # default argument promotions: the argument expression itself is converted, casts in it are kept
     chk.guard('C08.f', lambda: rule_type_before_use(chk, prog, tier))
     chk.guard('C08.c', lambda: rule_call_args(chk, prog, tier))
     chk.guard('C08.d', lambda: rule_adjust(chk, prog, tier))
